@@ -1,8 +1,9 @@
 //@ tu: libxcm/tp/tls/xcm_tp_btls.c
 //@ enforce: conn_update
 //@ props: C04 C16
-//@ expect: postcondition>=10 canary=12
+//@ expect: postcondition>=10 canary=14
 #include "_unit.h"
+#define ST(x) (xvu_in_st == (int)conn_state_##x)
 void harness(void)
 {
     xv_ghost_havoc();
@@ -10,20 +11,23 @@ void harness(void)
     xv_btls_havoc();
     xvu_havoc();
     struct xcm_socket *s;
-    long u0 = xvu.low_updates, p0 = xvu.pending_calls;
+    long u0 = xvu.low_updates;
     conn_update(s);
-    /* objects made by is_fresh are not visible here: the rows of the table are told apart by the records */
-    _Bool upd = xvu.low_updates == u0 + 1; int L = xvu.low_upd_cond;
-    if (upd && L == XU_R && xvu.pending_calls == p0) XV_CANARY("handshaking, OpenSSL wants to read: sub-socket awaits RECEIVABLE");
-    if (upd && L == XU_S && xvu.pending_calls == p0) XV_CANARY("handshaking, OpenSSL wants to write (or a refused send awaited)");
-    if (upd && L == 0 && !xvu.bell_ringing) XV_CANARY("ready, nothing awaited: quiet");
-    if (!upd && xvu.bell_ringing && xvu.pending_calls == p0 + 1 && xvu_has_pending) XV_CANARY("plaintext pending inside OpenSSL: bell");
-    if (!upd && xvu.bell_ringing && xvu.pending_calls == p0 + 1 && !xvu_has_pending) XV_CANARY("RECEIVABLE awaited, nothing refused or no overlap: bell");
-    if (!upd && xvu.bell_ringing && xvu.pending_calls == p0) XV_CANARY("closed/bad, or SENDABLE awaited with nothing refused: bell");
-    if (upd && L == XU_R && xvu.pending_calls == p0 + 1) XV_CANARY("receive refused (WANT_READ), RECEIVABLE awaited: exactly RECEIVABLE");
-    if (upd && L == XU_S && xvu.pending_calls == p0 + 1) XV_CANARY("receive refused (WANT_WRITE), RECEIVABLE awaited: exactly SENDABLE");
-    if (upd && L == XU_RS && xvu.pending_calls == p0 + 2) XV_CANARY("both awaited, one refused: both handed down");
-    if (upd && L == XU_R && xvu.pending_calls == p0 + 2) XV_CANARY("both awaited, send refused wanting read: RECEIVABLE");
-    if (upd && !xvu.bell_ringing && xvu.bell_mods >= 1) XV_CANARY("bell silenced");
-    if (xvu.bell_ringing && !upd) XV_CANARY("bell rung, sub-socket left alone");
+    /* one canary per row of the table (contracts/btlsupd.h); objects made by is_fresh are not visible here: the inputs are named
+     * by the ghost constants xvu_in_* that the contract binds to the socket's fields */
+    _Bool upd = xvu.low_updates == u0 + 1, bell = xvu.bell_ringing; int L = xvu.low_upd_cond, c = xvu_in_c, sc = xvu_in_sc, sw = xvu_in_sw;
+    if (ST(tls_handshaking) && upd && !bell && L == XU_R) XV_CANARY("handshaking, OpenSSL wants to read");
+    if (ST(tls_handshaking) && upd && !bell && L == XU_S && c == 0) XV_CANARY("handshaking, OpenSSL wants to write, nothing awaited");
+    if ((ST(closed) || ST(bad)) && !upd && bell) XV_CANARY("closed/bad: bell");
+    if (ST(ready) && c == 0 && upd && !bell && L == 0) XV_CANARY("ready, nothing awaited: quiet");
+    if (ST(ready) && c == XU_R && sc == 0 && xvu_has_pending && !upd && bell) XV_CANARY("plaintext pending inside OpenSSL: bell");
+    if (ST(ready) && c == XU_S && sc == 0 && !upd && bell) XV_CANARY("nothing refused: bell, let the application try");
+    if (ST(ready) && c == XU_R && sc == XU_R && sw == XU_R && !xvu_has_pending && upd && !bell && L == XU_R) XV_CANARY("receive refused (WANT_READ): exactly RECEIVABLE, quiet");
+    if (ST(ready) && c == XU_R && sc == XU_R && sw == XU_R && xvu_has_pending && upd && !bell && L == XU_R) XV_CANARY("receive refused with part of a record buffered: exactly RECEIVABLE, quiet");
+    if (ST(ready) && c == XU_S && sc == XU_S && sw == XU_S && upd && !bell && L == XU_S) XV_CANARY("send refused (backpressure): exactly SENDABLE");
+    if (ST(ready) && c == XU_R && sc == XU_S && !xvu_has_pending && !upd && bell) XV_CANARY("no overlap: bell");
+    if (ST(ready) && c == XU_RS && sc == XU_S && sw == XU_R && upd && !bell && L == XU_R) XV_CANARY("both awaited, send refused wanting read: RECEIVABLE");
+    if (ST(ready) && c == XU_RS && sc == XU_S && sw == XU_S && upd && !bell && L == XU_RS) XV_CANARY("both awaited, send refused wanting write: both");
+    if (ST(ready) && c == XU_RS && sc == XU_R && sw == XU_R && !xvu_has_pending && upd && !bell && L == XU_RS) XV_CANARY("both awaited, receive refused: both (the seeded arm)");
+    if (ST(ready) && c == XU_RS && sc == XU_R && sw == XU_R && xvu_has_pending && upd && !bell && L == XU_RS) XV_CANARY("both awaited, receive refused, part of a record buffered: both, quiet");
 }
